@@ -532,8 +532,8 @@ impl Check for C17 {
 
     fn runs(&self, tier: Tier) -> u64 {
         match tier {
-            Tier::Quick => 40_000,
-            Tier::Thorough => 4_000_000,
+            Tier::Quick => 400_000,
+            Tier::Thorough => 40_000_000,
         }
     }
 
